@@ -339,20 +339,13 @@ func runC15(c *eng.Ctx) {
 				bad = bad || false
 			}
 		}
-		// equality must be accepted: look for the branch conditions themselves
-		okIncl := 0
-		for _, b := range eng.BlocksT(f) {
-			for _, in := range b.Instrs {
-				if bo, ok := in.(*ssa.BinOp); ok {
-					d := p.Desc(bo)
-					if strings.Contains(d, "key>=") && strings.Contains(d, ".minKey") || strings.Contains(d, "key<=") && strings.Contains(d, ".maxKey") ||
-						strings.Contains(d, ".minKey<=key") || strings.Contains(d, ".maxKey>=key") {
-						okIncl++
-					}
-				}
-			}
+		// equality must be accepted: what is known at the selection is min <= key <= max, not the strict form
+		strictAt := 0
+		for _, sl := range selects {
+			fs := facts.At(sl.Instr)
+			strictAt += len(facts.Find(fs, "lt", eng.DescSuffix(".minKey"), eng.DescIs("key"))) + len(facts.Find(fs, "lt", eng.DescIs("key"), eng.DescSuffix(".maxKey")))
 		}
-		c.Check(okIncl >= 2 && !bad, "bounds-inclusive", nil, f, "both bounds are inclusive (a key equal to a file's min or max key is found)", fmt.Sprintf("%d inclusive comparisons", okIncl))
+		c.Check(strictAt == 0 && !bad, "bounds-inclusive", nil, f, "both bounds are inclusive (a key equal to a file's min or max key is found)", fmt.Sprintf("%d strict bounds established at the selection", strictAt))
 		rng := false
 		for _, b := range eng.BlocksT(f) {
 			for _, in := range b.Instrs {
